@@ -103,6 +103,7 @@ def _isinstance_classes(model: Model, f: FuncInfo, test: Optional[ast.AST]) -> L
 
 
 def run(model: Model, rep: Report) -> None:
+    _round8(model, rep)
     rep.explanation = (
         "C11: decides the structural part of the converter property: every value interpolated into an XMLConverter write is escaped, numeric, "
         "reviewed-safe or shown by backward provenance not to be document-controlled; every converter encodes with its codec on binary sinks; "
@@ -424,3 +425,25 @@ def _sinks_and_selection(model: Model, rep: Report) -> None:
         cur = cur.orelse[0] if len(cur.orelse) == 1 and isinstance(cur.orelse[0], ast.If) else None
     want_arms = [("'b'ingetattr(outfp,'mode','')", "True"), ("hasattr(outfp,'mode')", "False"), ("isinstance(outfp,io.BytesIO)", "True"), ("isinstance(outfp,io.StringIO)orisinstance(outfp,io.TextIOBase)", "False")]
     r8.check(arms == want_arms, site(bs), bs.qualname, "mode with 'b' -> binary; any other mode -> text; BytesIO -> binary; StringIO / TextIOBase -> text; otherwise binary", why=f"{arms}")
+
+
+def _round8(model: Model, rep: Report) -> None:
+    from ..util import guard_conjuncts
+
+    r9 = rep.rule("C11-R9", "NORMFORM", "text for a text sink is handed over as it is: compatible_encode_method returns a str unchanged (no encode/decode round trip that would drop what the codec cannot represent)", 1)
+    f = model.func("pdfminer.utils.compatible_encode_method")
+    p0 = f.params[0]
+    rets = [n for n in walk_no_nested(f.node) if isinstance(n, ast.Return) and "isinstance(%s,str)" % p0 in guard_conjuncts(f, n)]
+    stores = [n for n in walk_no_nested(f.node) if isinstance(n, ast.Name) and isinstance(n.ctx, ast.Store) and n.id == p0]
+    r9.check(len(rets) == 1 and isinstance(rets[0].value, ast.Name) and rets[0].value.id == p0 and not stores, site(f), f.qualname, f"under isinstance({p0}, str): return {p0}", why="a str goes through the codec: characters outside it are silently dropped from text that is written to a text sink, which never needed the codec")
+    r10 = rep.rule("C11-R10", "NORMFORM", "coordinates are written in fixed-point notation with three decimals (bbox2str): the attribute reproduces the layout tree's numbers for pages of any size", 1)
+    b = model.func("pdfminer.utils.bbox2str")
+    specs = []
+    for n in walk_no_nested(b.node):
+        if isinstance(n, ast.FormattedValue):
+            specs.append("".join(x.value for x in n.format_spec.values if isinstance(x, ast.Constant)) if n.format_spec is not None else "")
+        if isinstance(n, ast.BinOp) and isinstance(n.op, ast.Mod) and isinstance(n.left, ast.Constant) and isinstance(n.left.value, str):
+            import re as _re
+
+            specs += _re.findall(r"%([0-9.]*[a-zA-Z])", n.left.value)
+    r10.check(len(specs) == 4 and all(s_ == ".3f" for s_ in specs), site(b), b.qualname, "four fields, each formatted .3f", why=f"format specs {specs}: a general/short format keeps six significant digits only, so a coordinate of 1234.567 on a large page is written as 1234.57")
